@@ -52,3 +52,4 @@ mod c18;
 mod c19;
 #[cfg(kani)]
 mod c20;
+// mod x00;  // experiment on rule 7 (see the file header); not compiled
